@@ -535,6 +535,17 @@ pub fn artifact_roundtrip(input: &Tree) -> R<Tree> {
             Err(e) => e_err(&e),
         });
     }
+    // the listing accessors: every layer of the kind, in insertion order, with ITS OWN descriptor
+    let listing = L(vec![
+        match art.get_instances() {
+            Ok(v) => ok(list(v.iter(), |(d, m)| L(vec![e_descriptor(d), e_instance(m)]))),
+            Err(e) => e_err(&e),
+        },
+        match art.get_solutions() {
+            Ok(v) => ok(list(v.iter(), |(d, m)| L(vec![e_descriptor(d), e_state(m)]))),
+            Err(e) => e_err(&e),
+        },
+    ]);
     if !digests.contains(&probe) {
         digests.push(probe);
     }
@@ -561,7 +572,7 @@ pub fn artifact_roundtrip(input: &Tree) -> R<Tree> {
     }
     drop(art);
     drop(tmp);
-    Ok(ok(L(vec![L(aux), raw, checked, L(by_kind), L(rows)])))
+    Ok(ok(L(vec![L(aux), raw, checked, L(by_kind), L(rows), listing])))
 }
 
 pub fn dispatch(op: &str, input: &Tree) -> Option<Result<Tree, String>> {
